@@ -171,11 +171,14 @@ def r_rollback_paired(ctx):
     sites = [(f, c, via) for f, c, via in log_op_sites(ctx, 'deleteEntriesFrom') if f is h]
     # reverse loops: For over reversed(X) whose body calls mut(.., reverse=True)
     rev_loops = []
+    rev_iter = {}
     for n in cfg.nodes:
-        if n.kind == 'iter' and isinstance(n.ast.iter, ast.Call) and isinstance(n.ast.iter.func, ast.Name) and n.ast.iter.func.id == 'reversed':
+        it = U.deref1(P, h, n.ast.iter) if n.kind == 'iter' else None        # reversed(..) itself or a local holding it
+        if n.kind == 'iter' and isinstance(it, ast.Call) and isinstance(it.func, ast.Name) and it.func.id == 'reversed':
             for c in [x for x in ast.walk(n.ast) if isinstance(x, ast.Call)]:
                 if mut in P.resolve_call(h, c).targets and any(k.arg == 'reverse' and isinstance(k.value, ast.Constant) and k.value.value is True for k in c.keywords):
                     rev_loops.append(n)
+                    rev_iter[n.id] = it
     dyn = U.goal(ex, 'self.%s.dynamicMembershipChange' % R.conf)
     for f, c, via in sites:
         inst = 'truncation preceded by the membership rollback'
@@ -195,7 +198,7 @@ def r_rollback_paired(ctx):
                           % r2.path_str(tn.id, r2.facts_at(tn.id)[0]), instance=inst)
         # same slice: the start expression of the reversed slice appears in the truncation index
         rl = rev_loops[0]
-        it = rl.ast.iter.args[0]
+        it = rev_iter.get(rl.id, rl.ast.iter).args[0]
         start_names = set()
         if isinstance(it, ast.Subscript) and isinstance(it.slice, ast.Slice) and it.slice.lower is not None:
             start_names = set(x.id for x in ast.walk(it.slice.lower) if isinstance(x, ast.Name))
@@ -296,7 +299,7 @@ def r_apply_on_append(ctx):
     for n in hcfg.nodes:
         if n.kind == 'iter' and n.ast not in add_loops:
             for c in [x for x in ast.walk(n.ast) if isinstance(x, ast.Call)]:
-                if mut in P.resolve_call(h, c).targets and not any(k.arg == 'reverse' for k in c.keywords):
+                if mut in P.resolve_call(h, c).targets and not any(k.arg == 'reverse' and not (isinstance(k.value, ast.Constant) and not k.value.value) for k in c.keywords):
                     scan_loops.append(n)
     inst = 'follower applies membership entries it stored'
     ctx.tick()
@@ -306,7 +309,10 @@ def r_apply_on_append(ctx):
         ctx.violation('%s:stored-membership-not-applied' % h.qualname, h.loc(add_loops[0]), 'stored entries are not scanned for membership commands', instance=inst)
     else:
         same = [n for n in scan_loops if unparse(n.ast.iter) == unparse(add_loops[0].iter)]
-        after = [n for n in same if n.ast.lineno > add_loops[0].lineno]
+        # order by control flow, not by line number (an inlined helper keeps its own line numbers)
+        add_heads = [m for m in hcfg.nodes if m.kind == 'iter' and m.ast is add_loops[0]]
+        after = [n for n in same if add_heads and n.id in hcfg.reachable_from(add_heads[0].id, follow_exc=False)
+                 and add_heads[0].id not in hcfg.reachable_from(n.id, follow_exc=False)]
         if same and after:
             ctx.ok(inst, h.loc(after[0].ast), 'scan loop over `%s` follows the store loop' % unparse(add_loops[0].iter))
         else:
